@@ -179,14 +179,11 @@ func (v verifWAL) Write(p []byte) (int, error) {
 func (v verifWAL) Close() error { return v.f.Close() }
 func (v verifWAL) Sync() error  { return v.f.Sync() }
 
-// VerifWrapWAL switches the wrapping on for logs opened while it is set. Off by
-// default: the wrapper changes the dynamic type of the log handle, which code
+// VerifWrapLog wraps the log file of this service (see verifWAL). On request
+// only: the wrapper changes the dynamic type of the log handle, which code
 // under test may depend on (a type assertion to *os.File).
-var VerifWrapWAL bool
-
-func verifWALFile(f *os.File) readWriteSyncCloser {
-	if VerifWrapWAL {
-		return verifWAL{f}
+func (rs *RelationService) VerifWrapLog() {
+	if f, ok := rs.wal.reader.(*os.File); ok {
+		rs.wal.reader = verifWAL{f}
 	}
-	return f
 }
